@@ -1,5 +1,17 @@
-use serde::Serialize;
+use serde::{Serialize, Serializer};
 use std::path::PathBuf;
+
+// A path that is not valid UTF-8 cannot be a JSON string as it is: serialising the PathBuf
+// directly fails and the whole event used to be dropped silently. Paths are written lossily
+// instead (invalid bytes become U+FFFD), so every change still has its event.
+fn lossy_path<S: Serializer>(path: &PathBuf, serializer: S) -> Result<S::Ok, S::Error> {
+    serializer.serialize_str(&path.to_string_lossy())
+}
+
+#[allow(clippy::ptr_arg)]
+fn lossy_paths<S: Serializer>(paths: &Vec<PathBuf>, serializer: S) -> Result<S::Ok, S::Error> {
+    serializer.collect_seq(paths.iter().map(|p| p.to_string_lossy()))
+}
 
 /// JSON output mode for machine-readable sync events
 /// Uses NDJSON format (newline-delimited JSON)
@@ -7,30 +19,37 @@ use std::path::PathBuf;
 #[serde(tag = "type", rename_all = "snake_case")]
 pub enum SyncEvent {
     Start {
+        #[serde(serialize_with = "lossy_path")]
         source: PathBuf,
+        #[serde(serialize_with = "lossy_path")]
         destination: PathBuf,
         total_files: usize,
     },
     Create {
+        #[serde(serialize_with = "lossy_path")]
         path: PathBuf,
         size: u64,
         bytes_transferred: u64,
     },
     Update {
+        #[serde(serialize_with = "lossy_path")]
         path: PathBuf,
         size: u64,
         bytes_transferred: u64,
         delta_used: bool,
     },
     Skip {
+        #[serde(serialize_with = "lossy_path")]
         path: PathBuf,
         reason: String,
     },
     Delete {
+        #[serde(serialize_with = "lossy_path")]
         path: PathBuf,
     },
     #[allow(dead_code)] // Event for error reporting
     Error {
+        #[serde(serialize_with = "lossy_path")]
         path: PathBuf,
         error: String,
     },
@@ -47,8 +66,11 @@ pub enum SyncEvent {
     #[allow(dead_code)] // Event for verify-only mode (Phase 5c)
     VerificationResult {
         files_matched: usize,
+        #[serde(serialize_with = "lossy_paths")]
         files_mismatched: Vec<PathBuf>,
+        #[serde(serialize_with = "lossy_paths")]
         files_only_in_source: Vec<PathBuf>,
+        #[serde(serialize_with = "lossy_paths")]
         files_only_in_dest: Vec<PathBuf>,
         errors: Vec<VerificationError>,
         duration_secs: f64,
@@ -75,6 +97,7 @@ pub enum SyncEvent {
 
 #[derive(Debug, Serialize)]
 pub struct VerificationError {
+    #[serde(serialize_with = "lossy_path")]
     pub path: PathBuf,
     pub error: String,
     pub action: String,
